@@ -889,6 +889,17 @@ def run_hammer_stream(prop, stream, tier, seed, workdir, scale=1):
                         verdicts.append({"kind": "MON", "id": pid, "episode": 0, "step": 0, "raw": rp,
                                          "text": f"MON {pid} :: after parallel memory-aware stores into {f[2]} a stored key has no queue slot (or a slot is duplicated) at {incons} quiescent points: it can never be evicted and keeps the cache over its bound"})
                 continue
+            if f[0] == "HL":
+                calls, wrong = int(f[3]), int(f[4])
+                acc["steps"] += calls
+                acc["events"]["hits-under-queue-contention"] = acc["events"].get("hits-under-queue-contention", 0) + calls
+                acc["nontrivial"].add(hash((r, "HL", f[1])))
+                if wrong:
+                    for pid in ("C07", "C18"):
+                        verdicts.append({"kind": "MON", "id": pid, "episode": 0, "step": 0, "raw": [f"# hammer {seed + r} {threads} {rounds}", line],
+                                         "text": f"MON {pid} :: async LRU cache {f[2]}: after a thread alternated hits on two entries (ending with the second) while another thread kept the queue mutex busy, "
+                                                 f"the queue lists the entry hit LAST before the other one in {wrong} round(s): a hit did not refresh recency, the next overflow evicts the most recently used entry (free-running threads)"})
+                continue
             if f[0] == "HI":
                 calls, stale_left, reexec = int(f[3]), int(f[4]), int(f[5])
                 acc["steps"] += calls
